@@ -1273,4 +1273,255 @@ theorem v2_renamingValidate (opq : V2.Opq) (hAtoi : ∀ x, opq.strconv_Atoi x = 
       by_cases h4 : n = (countTokenWildcards frm : Int) <;>
       simp [h1, h2, h3, h4, errIf, push_push, Bool.beq_eq_decide_eq]
 
+/-! ## C10 / C06: imports — `Activation.Validate`, `validateWithTimeChecks`, `Import.Validate` (rows M0–M13), read through
+the struct tags. `DecodeActivationClaims`, `nkeys.IsValidPublicAccountKey` and `strconv.Atoi` are parameters. -/
+
+theorem v2_activationValidate (n : Jwt.Val) (vr : V2.T_ValidationResults) :
+    V2.Activation_Validate (V2.T_Activation.ofVal n) vr =
+      some (push vr (errIf (!isService n "kind" && !isStream n "kind") ++ validateSubject (n.field "subject").asStr)) := by
+  unfold V2.Activation_Validate
+  simp only [V2.Activation_IsService, V2.Activation_IsStream, V2.T_Activation.ofVal, v2_addError, v2_subjectValidate,
+    Option.pure_def, Option.bind_eq_bind, Option.bind_some, ite_some, ite_and, push_ite, push_push, isService, isStream]
+  generalize (n.field "kind").asInt = k
+  by_cases h2 : k = 2 <;> by_cases h1 : k = 1 <;> simp [h1, h2, errIf]
+
+/-- `ActivationClaims.validateWithTimeChecks(vr, timeChecks)` = the model's `validateActivation` -/
+theorem v2_validateWithTimeChecks (opq : V2.Opq) (hAcct : ∀ x, opq.nkeys_IsValidPublicAccountKey x = validAcct x)
+    (c : Jwt.Val) (vr : V2.T_ValidationResults) (tc : Bool) (now : Int) :
+    V2.ActivationClaims_validateWithTimeChecks (V2.T_ActivationClaims.ofVal c) vr tc now opq =
+      some (push vr (validateActivation now tc c)) := by
+  unfold V2.ActivationClaims_validateWithTimeChecks validateActivation validateActivationBody validateClaimsData
+  have hcd : ∀ w, V2.ClaimsData_Validate (V2.T_ActivationClaims.ofVal c).f_ClaimsData w now =
+      some (push w ((if (c.field "exp").asInt > 0 ∧ now > (c.field "exp").asInt then timeI else []) ++
+        (if (c.field "nbf").asInt > 0 ∧ (c.field "nbf").asInt > now then timeI else []))) := by
+    intro w; rw [v2_claimsDataValidate]; rfl
+  have hact : (V2.T_ActivationClaims.ofVal c).f_Activation = V2.T_Activation.ofVal (c.field "nats") := rfl
+  simp only [hcd, hact, v2_activationValidate, v2_addError, hAcct, Option.pure_def, Option.bind_eq_bind, Option.bind_some,
+    ite_some, push_ite, push_push]
+  have hia : (V2.T_Activation.ofVal (c.field "nats")).f_IssuerAccount = ((c.field "nats").field "issuer_account").asStr := rfl
+  simp only [hia]
+  cases tc <;> simp [errIf, push_push, bne, Bool.beq_eq_decide_eq]
+
+/-- `Import.Validate(actPubKey, vr)` on the pointer value an imports list holds = the model's `validateImport` -/
+theorem v2_importValidate (cr : Crypto) (opq : V2.Opq)
+    (hAtoi : ∀ x, opq.strconv_Atoi x = atoi x)
+    (hAcct : ∀ x, opq.nkeys_IsValidPublicAccountKey x = validAcct x)
+    (hDec : ∀ tok, opq.DecodeActivationClaims tok =
+      some (match decodeTyped .activation cr tok with
+            | .ok c => (some (V2.T_ActivationClaims.ofVal c.val), false)
+            | .error _ => (none, true)))
+    (acct : Str) (iv : Jwt.Val) (vr : V2.T_ValidationResults) (now : Int) :
+    V2.Import_Validate (optOfVal V2.T_Import.ofVal iv) acct vr now opq = some (push vr (validateImport cr acct iv)) := by
+  unfold V2.Import_Validate validateImport
+  cases hd : iv.deref with
+  | none =>
+    have : optOfVal V2.T_Import.ofVal iv = none := by
+      cases iv <;> simp [Jwt.Val.deref, optOfVal] at hd ⊢
+    simp [this, v2_addError]
+  | some i =>
+    have hiv : optOfVal V2.T_Import.ofVal iv = some (V2.T_Import.ofVal i) := by
+      cases iv <;> simp [Jwt.Val.deref, optOfVal] at hd ⊢
+      exact congrArg _ hd
+    rw [hiv]
+    have htk : (V2.T_Import.ofVal i).f_Token = (i.field "token").asStr := rfl
+    simp only [htk, validateImportToken]
+    by_cases htok : (i.field "token").asStr = []
+    · have hne : (((i.field "token").asStr) != ([] : Str)) = false := by simp [htok]
+      simp only [htk, hne, Option.isNone_some, Option.isSome_none, Bool.false_eq_true, if_false, if_true,
+        V2.Import_IsService, V2.Import_IsStream, V2.Import_GetTo,
+        v2_addError, v2_addWarning, v2_subjectValidate, v2_renamingValidate opq hAtoi,
+        Option.pure_def, Option.bind_eq_bind, Option.bind_some, ite_some, ite_and, ite_or, push_ite, push_push]
+      simp only [V2.T_Import.ofVal, isService, isStream, validateImportLocal, if_pos htok]
+      by_cases h1 : (i.field "to").asStr = [] <;> by_cases h2 : (i.field "local_subject").asStr = [] <;>
+        by_cases h3 : (i.field "account").asStr = [] <;>
+        simp [h1, h2, h3, errIf, bne, Bool.beq_eq_decide_eq]
+    · have hne : (((i.field "token").asStr) != ([] : Str)) = true := by simp [htok]
+      cases hdc : decodeTyped Kind.activation cr (i.field "token").asStr with
+      | error e =>
+        simp only [htk, hne, if_neg htok, hDec, hdc, Option.isNone_some, Option.isSome_none, Bool.false_eq_true, if_false, if_true,
+          V2.Import_IsService, V2.Import_IsStream, V2.Import_GetTo,
+          v2_addError, v2_addWarning, v2_subjectValidate, v2_renamingValidate opq hAtoi,
+          Option.pure_def, Option.bind_eq_bind, Option.bind_some, ite_some, ite_and, ite_or, push_ite, push_push]
+        simp only [V2.T_Import.ofVal, isService, isStream, validateImportLocal]
+        by_cases h1 : (i.field "to").asStr = [] <;> by_cases h2 : (i.field "local_subject").asStr = [] <;>
+          by_cases h3 : (i.field "account").asStr = [] <;>
+          simp [h1, h2, h3, errIf, bne, Bool.beq_eq_decide_eq]
+      | ok act =>
+        simp only [htk, hne, if_neg htok, hDec, hdc, Option.isNone_some, Option.isSome_some, Bool.false_eq_true, if_false, if_true,
+          V2.Import_IsService, V2.Import_IsStream, V2.Import_GetTo,
+          v2_addError, v2_addWarning, v2_subjectValidate, v2_renamingValidate opq hAtoi,
+          v2_validateWithTimeChecks opq hAcct, v2_isContainedIn,
+          Option.pure_def, Option.bind_eq_bind, Option.bind_some, ite_some, ite_and, ite_or, push_ite, push_push]
+        simp only [V2.T_Import.ofVal, V2.T_ActivationClaims.ofVal, V2.T_ClaimsData.ofVal, V2.T_Activation.ofVal,
+          isService, isStream, validateImportLocal, validateActivation]
+        by_cases h1 : (i.field "to").asStr = [] <;> by_cases h2 : (i.field "local_subject").asStr = [] <;>
+          by_cases h3 : (i.field "account").asStr = [] <;> by_cases h4 : (i.field "type").asInt = 2 <;>
+          simp [h1, h2, h3, h4, errIf, bne, Bool.beq_eq_decide_eq]
+
+/-! `Imports.Validate` (rows M0, ML1): the issues are those of the model's `validateImports` **up to order** (the Go code
+interleaves the overlap tests with the per-import validation and visits the set of earlier subjects in map order; every
+observable of a result list — blocking, number of time checks — is invariant under permutation) -/
+
+theorem imports_overlap_inner (sub : Str) (now : Int) (opq : V2.Opq) :
+    ∀ (m : List (Str × Unit)) (i : Int) (vr : V2.T_ValidationResults),
+    forRangeFrom (ρ := V2.T_ValidationResults) (V2.Imports_Validate.loop2 sub now opq) i m vr =
+      some (.done (push vr ((m.map (·.1)).flatMap fun k => errIf (Jwt.isContainedIn sub k || Jwt.isContainedIn k sub)))) := by
+  intro m
+  induction m with
+  | nil => intro i vr; simp [forRangeFrom]
+  | cons p r ih =>
+    intro i vr
+    obtain ⟨k, u⟩ := p
+    simp only [forRangeFrom, V2.Imports_Validate.loop2, v2_isContainedIn, v2_addError, Option.pure_def, Option.bind_eq_bind,
+      Option.bind_some, ite_some, ite_or, push_ite, ih, push_push, List.map_cons, List.flatMap_cons, errIf]
+
+theorem keys_mapSet_perm (m : List (Str × Unit)) (seen : List Str) (sub : Str)
+    (hp : (m.map (·.1)).Perm seen) (hnd : (m.map (·.1)).Nodup) :
+    (((sub, ()) :: m.filter (fun p => p.1 ≠ sub)).map (·.1)).Perm (if seen.contains sub then seen else seen ++ [sub]) ∧
+    (((sub, ()) :: m.filter (fun p => p.1 ≠ sub)).map (·.1)).Nodup := by
+  have hkf : (m.filter (fun p => decide (p.1 ≠ sub))).map (·.1) = (m.map (·.1)).filter (fun k => k != sub) := by
+    rw [List.filter_map]; congr 1; apply List.filter_congr; intro p _; simp [bne, Bool.beq_eq_decide_eq]
+  simp only [List.map_cons, hkf]
+  generalize m.map (·.1) = keys at hp hnd
+  constructor
+  · by_cases hs : sub ∈ seen
+    · have hk : sub ∈ keys := hp.mem_iff.mpr hs
+      have : seen.contains sub = true := by simpa using hs
+      rw [this, if_pos rfl, ← hnd.erase_eq_filter sub]
+      exact (List.perm_cons_erase hk).symm.trans hp
+    · have hk : sub ∉ keys := fun h => hs (hp.mem_iff.mp h)
+      have : seen.contains sub = false := by simpa using hs
+      rw [this]
+      have hf : keys.filter (fun k => k != sub) = keys := by
+        apply List.filter_eq_self.mpr; intro k hk'; simp; intro e; exact hk (e ▸ hk')
+      rw [hf]
+      simp only [Bool.false_eq_true, if_false]
+      exact (List.Perm.cons sub hp).trans (List.perm_append_singleton sub seen).symm
+  · refine List.nodup_cons.mpr ⟨?_, ?_⟩
+    · simp
+    · exact hnd.sublist (List.filter_sublist)
+
+theorem v2_imports_loop (cr : Crypto) (opq : V2.Opq)
+    (hAtoi : ∀ x, opq.strconv_Atoi x = atoi x)
+    (hAcct : ∀ x, opq.nkeys_IsValidPublicAccountKey x = validAcct x)
+    (hToSub : ∀ x, opq.RenamingSubject_ToSubject x = some (renamingToSubject x))
+    (hDec : ∀ tok, opq.DecodeActivationClaims tok =
+      some (match decodeTyped .activation cr tok with
+            | .ok c => (some (V2.T_ActivationClaims.ofVal c.val), false)
+            | .error _ => (none, true)))
+    (acct : Str) (now : Int) :
+    ∀ (is : List Jwt.Val) (i0 : Int) (vr : V2.T_ValidationResults) (m : List (Str × Unit)) (seen : List Str),
+      (m.map (·.1)).Perm seen → (m.map (·.1)).Nodup →
+      ∃ l m', forRangeFrom (V2.Imports_Validate.loop1 acct now opq) i0 (is.map (optOfVal V2.T_Import.ofVal)) (vr, some m) =
+          some (.done (push vr l, some m')) ∧
+        l.Perm (importsOverlap seen is ++ is.flatMap (validateImport cr acct)) := by
+  intro is
+  induction is with
+  | nil => intro i0 vr m seen _ _; exact ⟨[], m, by simp [forRangeFrom], by simp [importsOverlap]⟩
+  | cons iv rest ih =>
+    intro i0 vr m seen hp hnd
+    have hval := v2_importValidate cr opq hAtoi hAcct hDec acct iv
+    cases hd : iv.deref with
+    | none =>
+      have hn : optOfVal V2.T_Import.ofVal iv = none := by
+        cases iv <;> simp [Jwt.Val.deref, optOfVal] at hd ⊢
+      have hv : validateImport cr acct iv = errI := by simp [validateImport, hd]
+      obtain ⟨l, m', hl, hperm⟩ := ih (i0 + 1) (push vr errI) m seen hp hnd
+      refine ⟨errI ++ l, m', ?_, ?_⟩
+      · simp [forRangeFrom, V2.Imports_Validate.loop1, hn, v2_addError, hl, push_push]
+      · simp only [importsOverlap, hd, List.flatMap_cons, hv]
+        exact (List.Perm.append_left errI hperm).trans (List.perm_append_comm_assoc _ _ _)
+    | some i =>
+      have hs : optOfVal V2.T_Import.ofVal iv = some (V2.T_Import.ofVal i) := by
+        cases iv <;> simp [Jwt.Val.deref, optOfVal] at hd ⊢
+        exact congrArg _ hd
+      rw [hs] at hval
+      have hty : (V2.T_Import.ofVal i).f_Type = (i.field "type").asInt := rfl
+      by_cases hsvc : isService i = true
+      · -- a service import: overlap tests against the earlier effective subjects, then the import itself
+        have h2 : ((V2.T_Import.ofVal i).f_Type == 2) = true := by simpa [isService, V2.T_Import.ofVal] using hsvc
+        obtain ⟨hpk, hndk⟩ := keys_mapSet_perm m seen (importLocalSubject i) hp hnd
+        let ovG : List Issue := (m.map (·.1)).flatMap fun k =>
+          errIf (Jwt.isContainedIn (importLocalSubject i) k || Jwt.isContainedIn k (importLocalSubject i))
+        let ovM : List Issue := seen.flatMap fun k =>
+          errIf (Jwt.isContainedIn (importLocalSubject i) k || Jwt.isContainedIn k (importLocalSubject i))
+        have hov : ovG.Perm ovM := List.Perm.flatMap_right _ hp
+        obtain ⟨l, m', hl, hperm⟩ := ih (i0 + 1)
+          (push vr (ovG ++ errIf (seen.contains (importLocalSubject i)) ++ validateImport cr acct iv))
+          ((importLocalSubject i, ()) :: m.filter (fun p => p.1 ≠ importLocalSubject i))
+          (if seen.contains (importLocalSubject i) then seen else seen ++ [importLocalSubject i]) hpk hndk
+        refine ⟨(ovG ++ errIf (seen.contains (importLocalSubject i)) ++ validateImport cr acct iv) ++ l, m', ?_, ?_⟩
+        · have hsubj : (if ((if ((V2.T_Import.ofVal i).f_To == []) = true then renamingToSubject (V2.T_Import.ofVal i).f_LocalSubject
+                else (V2.T_Import.ofVal i).f_To) == []) = true then (V2.T_Import.ofVal i).f_Subject
+              else (if ((V2.T_Import.ofVal i).f_To == []) = true then renamingToSubject (V2.T_Import.ofVal i).f_LocalSubject
+                else (V2.T_Import.ofVal i).f_To)) = importLocalSubject i := by
+            simp only [importLocalSubject, V2.T_Import.ofVal]
+            by_cases ht : (i.field "to").asStr = [] <;> by_cases hl2 : renamingToSubject (i.field "local_subject").asStr = [] <;>
+              simp [ht, hl2]
+          have hcont : (mapGet (some m) (importLocalSubject i)).isSome = seen.contains (importLocalSubject i) := by
+            rw [mapGet_isSome']
+            by_cases hm : importLocalSubject i ∈ seen
+            · have := hp.mem_iff.mpr hm; simp [hm, this]
+            · have : importLocalSubject i ∉ m.map (·.1) := fun h => hm (hp.mem_iff.mp h)
+              simp [hm, this]
+          simp only [List.map_cons, forRangeFrom, V2.Imports_Validate.loop1, hs, Option.isNone_some, Bool.false_eq_true, if_false,
+            h2, if_true, hToSub, forRange, imports_overlap_inner, mapEntries, v2_addError, hval, mapSet,
+            Option.pure_def, Option.bind_eq_bind, Option.bind_some, ite_some, push_ite, push_push, hsubj, hcont]
+          simp only [push_push] at hl
+          simpa [errIf, ovG] using hl
+        · -- ovG ++ c ++ vI ++ l  ~  (ovM ++ c ++ overlapRest) ++ (vI ++ importsRest)
+          have hio : importsOverlap seen (iv :: rest) =
+              ovM ++ errIf (seen.contains (importLocalSubject i)) ++
+                importsOverlap (if seen.contains (importLocalSubject i) then seen else seen ++ [importLocalSubject i]) rest := by
+            simp [importsOverlap, hd, hsvc, ovM]
+          rw [hio, List.flatMap_cons]
+          have h1 : (ovG ++ errIf (seen.contains (importLocalSubject i)) ++ validateImport cr acct iv ++ l).Perm
+              (ovM ++ errIf (seen.contains (importLocalSubject i)) ++ validateImport cr acct iv ++
+                (importsOverlap (if seen.contains (importLocalSubject i) then seen else seen ++ [importLocalSubject i]) rest ++
+                  List.flatMap (validateImport cr acct) rest)) :=
+            List.Perm.append (List.Perm.append_right _ (List.Perm.append_right _ hov)) hperm
+          refine h1.trans ?_
+          simp only [List.append_assoc]
+          apply List.Perm.append_left
+          apply List.Perm.append_left
+          exact List.perm_append_comm_assoc _ _ _
+      · -- not a service import: no overlap test
+        have hsvc' : isService i = false := by simpa using hsvc
+        have h2 : ((V2.T_Import.ofVal i).f_Type == 2) = false := by simpa [isService, V2.T_Import.ofVal] using hsvc'
+        obtain ⟨l, m', hl, hperm⟩ := ih (i0 + 1) (push vr (validateImport cr acct iv)) m seen hp hnd
+        refine ⟨validateImport cr acct iv ++ l, m', ?_, ?_⟩
+        · simp only [List.map_cons, forRangeFrom, V2.Imports_Validate.loop1, hs, Option.isNone_some, Bool.false_eq_true, if_false,
+            h2, hval, Option.pure_def, Option.bind_eq_bind, Option.bind_some]
+          simp only [push_push] at hl
+          simpa using hl
+        · simp only [importsOverlap, hd, hsvc', Bool.false_eq_true, if_false, List.flatMap_cons]
+          exact (List.Perm.append_left _ hperm).trans (List.perm_append_comm_assoc _ _ _)
+
+/-- **`Imports.Validate`**: never panics, and raises the issues of the model's `validateImports` (rows M0–M13 per entry,
+ML1 over the list) up to order -/
+theorem v2_importsValidate (cr : Crypto) (opq : V2.Opq)
+    (hAtoi : ∀ x, opq.strconv_Atoi x = atoi x)
+    (hAcct : ∀ x, opq.nkeys_IsValidPublicAccountKey x = validAcct x)
+    (hToSub : ∀ x, opq.RenamingSubject_ToSubject x = some (renamingToSubject x))
+    (hDec : ∀ tok, opq.DecodeActivationClaims tok =
+      some (match decodeTyped .activation cr tok with
+            | .ok c => (some (V2.T_ActivationClaims.ofVal c.val), false)
+            | .error _ => (none, true)))
+    (acct : Str) (now : Int) (is : List Jwt.Val) (vr : V2.T_ValidationResults) :
+    ∃ l, V2.Imports_Validate (is.map (optOfVal V2.T_Import.ofVal)) acct vr now opq = some (push vr l) ∧
+      l.Perm (validateImports cr acct (Jwt.Val.list is)) := by
+  obtain ⟨l, m', hl, hperm⟩ := v2_imports_loop cr opq hAtoi hAcct hToSub hDec acct now is 0 vr [] [] (by simp) (by simp)
+  refine ⟨l, ?_, ?_⟩
+  · simp [V2.Imports_Validate, forRange, hl]
+  · simpa [validateImports, Jwt.Val.asList] using hperm
+
+/-- blocking-ness and the number of time-check issues do not depend on the order of a result list -/
+theorem isBlocking_perm {a b : List Issue} (h : a.Perm b) (t : Bool) : isBlocking a t = isBlocking b t := by
+  unfold isBlocking
+  induction h with
+  | nil => rfl
+  | cons x _ ih => simp [ih]
+  | swap x y l => simp [Bool.or_left_comm]
+  | trans _ _ ih1 ih2 => exact ih1.trans ih2
+
 end Jwt.FnTie
